@@ -295,6 +295,8 @@ fn cmd_worker(args: &[String]) -> i32 {
             } else if out2.stats.log_digest != out.stats.log_digest {
                 st.rerun_log_mismatch += 1;
             }
+            // the replay of a later failure has to repeat this second execution too
+            prefix.push(seed);
             // observation (not a verdict): does a call pass the same number of points as alone?
             for (a, b) in out.steps.iter().flatten().zip(out2.steps.iter().flatten()) {
                 if a != b {
